@@ -179,6 +179,29 @@ pub fn run_c07(rep: &mut Report, thorough: bool) {
         let o2 = BfsOpts { stage: "bfs-c07-trace".into(), max_depth: if thorough { 5 } else { 3 }, max_states: o.max_states, abstract_acc: true, differential: false };
         bfs::bfs(&tcfg, &events, &s.cookies, &o2, rep);
     }
+    // address-family neighbours: the IPv4 flow, the IPv6 flow between the IPv4-mapped forms of the
+    // same addresses, and between the IPv4-compatible forms, same ports: three distinct flows
+    {
+        let a = flow4(40000, 80);
+        let mut m = flow6(40000, 80);
+        m.cip = Ip::parse("::ffff:10.0.0.9");
+        m.sip = Ip::parse("::ffff:10.0.0.1");
+        let mut n = flow6(40000, 80);
+        n.cip = Ip::parse("::10.0.0.9");
+        n.sip = Ip::parse("::10.0.0.1");
+        let fl = vec![("A".to_string(), a), ("M".to_string(), m), ("N".to_string(), n)];
+        match learn_cookies(&s.cfg, &fl.iter().map(|x| x.1.clone()).collect::<Vec<_>>()) {
+            Ok(ck) if ck.len() == 3 => {
+                let mut ev: Vec<Event> = Vec::new();
+                for (tag, f) in &fl {
+                    ev.extend(tcp_events(tag, f, ck[&key_of(f)], false).into_iter().filter(|e| e.name.contains("data-http-ack=") || e.name.ends_with(":syn") || e.name.contains("data-http-half")));
+                }
+                let o = BfsOpts { stage: "bfs-c07-mapped-addresses".into(), max_depth: if thorough { 4 } else { 3 }, max_states: 30000, abstract_acc: true, differential: false };
+                bfs::bfs(&s.cfg, &ev, &ck, &o, rep);
+            }
+            _ => rep.sink.machinery_errors.push("could not learn the cookies of the mapped-address flows".into()),
+        }
+    }
     // edge cookies: flows whose cookie is 0xffffffff (valid ack = 0, the "underflow" arm), 0,
     // 0xfffffffe and 1.  The keys were found offline with the harness's own SipHash
     // (`mcx find-edge-cookies`); they are CONFIRMED against the real SYN-ACK here, and the stage
@@ -313,6 +336,7 @@ pub fn run_c08(rep: &mut Report, thorough: bool) {
     // (ii) no-dedup interleavings: two flows, each a 3-segment request, 0..2 noise frames
     interleavings(&s, rep, thorough);
     structured_pairs(&s.cfg, rep);
+    context_switch(&s.cfg, rep);
     // (iv) collision stage
     if thorough {
         let t0 = std::time::Instant::now();
@@ -334,6 +358,65 @@ pub fn run_c08(rep: &mut Report, thorough: bool) {
             }
         }
     }
+}
+
+/// Datagram context switches: the same payload sent back to back to different destination
+/// addresses / ports / IP versions in ONE responder process; each reply must equal the reply the
+/// same frame gets from a fresh process (no state outside the connection table, which datagrams
+/// never touch).
+pub fn context_switch(cfg: &Cfg, rep: &mut Report) {
+    let t0 = std::time::Instant::now();
+    let pls = payloads();
+    let mut n = 0u64;
+    for pl in pls.iter().filter(|p| p.via != Via::TcpOnly) {
+        let mut c1 = flow4(40001, 53);
+        c1.sip = srv4b();
+        let mut c3 = flow6(40001, 111);
+        c3.sip = srv6b();
+        let ctx = [flow4(40000, 3478), c1, flow6(40000, 3478), c3];
+        let frames: Vec<Vec<u8>> = ctx.iter().map(|f| f.udp(&pl.bytes)).collect();
+        let run = |cmds: &[Cmd]| -> Result<Vec<String>, String> {
+            let mut d = crate::driver::Driver::spawn(cfg)?;
+            let o = d.exec(cmds).map_err(|e| format!("{:?}", e))?;
+            Ok(o.iter().map(|x| crate::mask::canon_reply(x.reply.as_deref())).collect())
+        };
+        for order in [[0usize, 1, 2, 3], [3, 2, 1, 0], [1, 0, 3, 2]] {
+            let cmds: Vec<Cmd> = order.iter().map(|k| Cmd::Frame(frames[*k].clone())).collect();
+            let together = match run(&cmds) {
+                Ok(v) => v,
+                Err(e) => {
+                    rep.sink.machinery_errors.push(e);
+                    return;
+                }
+            };
+            for (pos, k) in order.iter().enumerate() {
+                n += 1;
+                if pos == 0 {
+                    continue;
+                }
+                let alone = match run(&cmds[pos..pos + 1]) {
+                    Ok(v) => v,
+                    Err(e) => {
+                        rep.sink.machinery_errors.push(e);
+                        return;
+                    }
+                };
+                if alone[0] != together[pos] {
+                    rep.sink.violation(Violation {
+                        prop: "C08".into(),
+                        key: format!("datagram-context-leak:{}", pl.name),
+                        what: format!("datagram '{}' to context {} is answered differently after the same payload was sent to other destinations: fresh process {} vs {}", pl.name, k, &alone[0][..alone[0].len().min(120)], &together[pos][..together[pos].len().min(120)]),
+                        cfg: cfg.clone(),
+                        cmds: cmds[..=pos].to_vec(),
+                        idx: n,
+                        stage: "context-switch".into(),
+                    });
+                }
+            }
+        }
+    }
+    rep.sink.count("frames", n);
+    rep.stage("context-switch", "every datagram payload of the corpus x 3 orders of 4 contexts (2 IPv4 and 2 IPv6 destinations / port pairs) in one process, each reply compared with the reply from a fresh process", n, t0);
 }
 
 /// Pairs of distinct flows that a weakened cookie function would typically confuse: swapped
@@ -378,6 +461,13 @@ pub fn structured_pairs(cfg: &Cfg, rep: &mut Report) {
     let mut d6 = flow6(40000, 80);
     d6.sip = srv6b();
     pairs.push((flow6(40000, 80), d6));
+    let mut m6 = flow6(40000, 80);
+    m6.cip = Ip::parse("::ffff:10.0.0.9");
+    m6.sip = Ip::parse("::ffff:10.0.0.1");
+    pairs.push((base.clone(), m6.clone()));
+    let mut m6b = m6.clone();
+    m6b.cip = cli6();
+    pairs.push((m6.clone(), m6b));
     let all: Vec<Flow> = pairs.iter().flat_map(|(a, b)| [a.clone(), b.clone()]).collect();
     let ck = match learn_cookies(cfg, &all) {
         Ok(c) => c,
@@ -397,7 +487,7 @@ pub fn structured_pairs(cfg: &Cfg, rep: &mut Report) {
     }
     rep.sink.count("structured_pairs", pairs.len() as u64);
     rep.sink.count("structured_pairs_with_equal_cookies", equal);
-    rep.stage("structured-pairs", "17 pairs of flows related by port swap / equal port sum / one-byte port difference / other client / other server address / swapped addresses: equal cookies => interference scenario", pairs.len() as u64, t0);
+    rep.stage("structured-pairs", "19 pairs of flows related by port swap / equal port sum / one-byte port difference / other client / other server address / swapped addresses / IPv4 vs IPv4-mapped IPv6: equal cookies => interference scenario", pairs.len() as u64, t0);
 }
 
 fn alias_scenario(cfg: &Cfg, a: &Flow, b: &Flow, c: u32, rep: &mut Report) {
